@@ -254,7 +254,7 @@ func (t *Trace) store(n *Node, b *lib.Bundle, spec *lib.BlockSpec, err error) {
 	if err == nil {
 		expect = "ok " + t.rootID(b.Block.GlobalStateRoot)
 	} else {
-		expect = modelErrClass(err)
+		expect = t.storeErrClass(err)
 	}
 	t.add("store "+name+" "+blockLine(b), expect, fmt.Sprintf("store block %d on %s", b.Block.Number, name))
 }
@@ -264,7 +264,7 @@ func (t *Trace) storeWrongRoot(n *Node, b *lib.Bundle, err error) {
 	if t == nil {
 		return
 	}
-	t.add("storewrongroot "+modelName(n)+" "+blockLine(b), modelErrClass(err), fmt.Sprintf("store block %d with a wrong state root on %s", b.Block.Number, modelName(n)))
+	t.add("storewrongroot "+modelName(n)+" "+blockLine(b), t.storeErrClass(err), fmt.Sprintf("store block %d with a wrong state root on %s", b.Block.Number, modelName(n)))
 }
 
 // storeRefused records a block that juno's own Finalise refused on the source node (the model is
@@ -275,7 +275,19 @@ func (t *Trace) storeRefused(n *Node, number uint64, parent *felt.Felt, spec *li
 	}
 	b := &lib.Bundle{Block: &core.Block{Header: &core.Header{Number: number, Hash: lib.F(0xdead0000 + number), ParentHash: parent,
 		ProtocolVersion: spec.Version}, Transactions: spec.Txs}, SU: &core.StateUpdate{StateDiff: spec.Diff}, Classes: spec.Classes}
-	t.add("store "+modelName(n)+" "+blockLine(b), modelErrClass(err), fmt.Sprintf("store refused block %d on %s", number, modelName(n)))
+	t.add("store "+modelName(n)+" "+blockLine(b), t.storeErrClass(err), fmt.Sprintf("store refused block %d on %s", number, modelName(n)))
+}
+
+// storeErrClass: the new backend's State.Update returns the contract lookup's db.ErrKeyNotFound
+// unwrapped (core/state/accessors.go: "TODO: return more precise error (e.g. ErrContractNotDeployed)");
+// every other lookup of Store wraps its error or tolerates a missing key, so on the new backend a bare
+// key-not-found from Store is the missing contract.
+func (t *Trace) storeErrClass(err error) string {
+	cls := modelErrClass(err)
+	if cls == "err:notFound" && t.newState {
+		return "err:contractMissing"
+	}
+	return cls
 }
 
 func (t *Trace) revert(n *Node, err error) {
